@@ -45,6 +45,56 @@ PROPS = {
                    "thorough": "2 keys x 3 operations"},
         "outside": ["real fsync / page cache behaviour", "more keys and operations", "several torn files at once"],
     },
+    "C08": {
+        "parts": [
+            {"engine": "D", "crate": "d_net", "harnesses": [
+                {"name": "c08_add_multi", "covers": ["scheduled_some", "at_limit", "queued_and_scheduled"], "quick": {"max_paths": 100000, "timeout": 900}},
+                {"name": "c08_add_single", "covers": ["single_started", "single_not_started"], "quick": {"max_paths": 100000, "timeout": 600}},
+                {"name": "c08_expiry", "covers": ["some_expired", "none_expired", "dropped_queue_of_failed_holder"], "quick": {"max_paths": 100000, "timeout": 600}},
+                {"name": "c08_complete", "covers": ["arrival", "early"], "quick": {"max_paths": 100000, "timeout": 600}},
+                {"name": "c08_farthest", "covers": ["kept", "dropped"], "quick": {"max_paths": 100000, "timeout": 600}},
+                {"name": "c08_progress", "covers": ["done"], "quick": {"max_paths": 100000, "timeout": 900}},
+            ]},
+        ],
+        "assumptions": COMMON_D_ASSUMPTIONS + [
+            "the parallel-fetch limit K_VALUE (libp2p: 20) is replaced by 3 in the harness crate; the property is 'never exceeds the limit'",
+            "clock: one symbolic instant per fetcher call (time does not advance inside a call); the harness advances it by a symbolic amount between calls",
+            "H[self] = 0 without loss of generality (all distances are taken from the node itself)",
+            "pre-states are built directly in the fetcher's private maps and assumed to satisfy: deadlines of live entries in the future, nothing queued or in flight beyond the farthest acceptable distance",
+        ],
+        "bounds": {"quick": "one fetcher call from states with <=4 in-flight and <=3 queued entries over a universe of <=6 keys, 3 record versions, 3 holders; advertisement lists of 1..3 keys; 2 rounds for progress",
+                   "thorough": "same harnesses, other hasher seeds"},
+        "outside": ["longer call sequences (covered only through the per-call obligations)", "unbounded liveness", "libp2p's K_VALUE = 20 itself"],
+    },
+    "C09": {
+        "parts": [
+            {"engine": "D", "crate": "d_net", "harnesses": [
+                {"name": "c09_advertise", "covers": ["ran", "skipped_by_min_interval", "recently_served_peer_skipped"], "quick": {"max_paths": 100000, "timeout": 900}},
+                {"name": "c09_receive", "covers": ["eligible_sender", "ineligible_sender"], "quick": {"max_paths": 100000, "timeout": 600}},
+                {"name": "c09_divergent_version", "covers": ["ran"], "quick": {"max_paths": 1000, "timeout": 600}},
+            ]},
+        ],
+        "assumptions": COMMON_D_ASSUMPTIONS + [
+            "libp2p's get_closest_local_peers is modelled by its contract (all routing-table peers ascending by XOR distance to the key)",
+            "claimed as per-round obligations only (advertise everything to the candidates; act only on lists from the K closest; a divergent version of a held key is scheduled); convergence over rounds is not claimed",
+        ],
+        "bounds": {"quick": "routing table of 6 (advertise) / 3 (receive) peers, <=2 held records, symbolic range, clock and served-until timestamps"},
+        "outside": ["multi-round convergence between two real nodes", "message loss and churn", "acceptance of the fetched record (C04/C07 obligations)"],
+    },
+    "C11": {
+        "parts": [
+            {"engine": "D", "crate": "d_net", "harnesses": [
+                {"name": "c11_candidates", "covers": ["by_range", "close_group_fallback"], "quick": {"max_paths": 100000, "timeout": 900}},
+                {"name": "c11_sort_peers", "covers": ["ok", "too_few"], "quick": {"max_paths": 100000, "timeout": 900}},
+                {"name": "c11_calc_closest", "covers": ["range_filter", "k_nearest"], "quick": {"max_paths": 100000, "timeout": 900}},
+            ]},
+        ],
+        "assumptions": COMMON_D_ASSUMPTIONS + [
+            "distance(a,b) = H[a] xor H[b] on 256-bit values is libp2p's definition (trusted); the reference address has H = 0 without loss of generality",
+        ],
+        "bounds": {"quick": "3..6 peers with fully symbolic 256-bit hashes (6-peer case: order of three names fixed), requested counts 2/5/7, symbolic range"},
+        "outside": ["SHA-256 and libp2p's xor themselves", "convert_distance_to_u256's decimal round trip through the uint and ruint libraries (see K harnesses)"],
+    },
     "C10": {
         "parts": [
             {"engine": "D", "crate": "d_net", "harnesses": [
